@@ -290,7 +290,7 @@ class TickList(list):
 class Result:
     def __init__(self):
         self.returns: list[tuple[tuple, Term, ast.AST]] = []  # (pathcond, term, node)
-        self.raises: list[tuple[tuple, Term, ast.AST]] = []
+        self.raises: TickList = TickList()
         self.effects: list[Effect] = []
         self.env: Env | None = None  # environment at normal fall-through / merged
         self.stores: TickList = TickList()  # (loc, value, node, cond)
@@ -641,6 +641,16 @@ class Evaluator:
                 kwargs.append((kw.arg, self.expr(kw.value)))
         args = tuple(self._fn_value(a) for a in args)
         kwargs = [(k, self._fn_value(v)) for k, v in kwargs]
+        if f[0] == "phi" and len(f) == 4 and f[1][0] != "path":
+            # calling a conditionally chosen function: (f if c else g)(x) is
+            # f(x) if c else g(x) -- the choice may be made before or around the call
+            outs = []
+            for arm, pol in ((f[2], True), (f[3], False)):
+                a2, k2 = self._canon_call(arm, args, list(kwargs))
+                t_arm = ("call", arm, a2, tuple(sorted(k2)))
+                self.res.calls.append((t_arm, e, self.cond + pcs(f[1], pol)))
+                outs.append(t_arm)
+            return phi_(f[1], outs[0], outs[1])
         args, kwargs = self._canon_call(f, args, kwargs)
         if f[0] == "lambda" and not kwargs:
             # applying a function value on the spot: (lambda a, b: e)(x, *ys) is e[a := x, ...]
@@ -1060,7 +1070,7 @@ class Evaluator:
             return None
         v = body[0].value
         if not (isinstance(v, ast.Call) and isinstance(v.func, ast.Attribute)
-                and v.func.attr == "append" and isinstance(v.func.value, ast.Name)
+                and v.func.attr in ("append", "extend") and isinstance(v.func.value, ast.Name)
                 and len(v.args) == 1 and not v.keywords
                 and not isinstance(v.args[0], ast.Starred)):
             return None
@@ -1072,6 +1082,9 @@ class Evaluator:
         for part in [st.iter, v.args[0], *conds]:
             if any(isinstance(x, ast.Name) and x.id == name for x in ast.walk(part)):
                 return None
+        if v.func.attr == "extend":
+            # x.extend(e) per iteration: [k for t in it if c for k in e]
+            return name, ("extend", v.args[0]), conds
         return name, v.args[0], conds
 
     def s_For(self, st):
@@ -1080,10 +1093,32 @@ class Evaluator:
             name, elt, conds = acc
             gen = ast.comprehension(target=st.target, iter=st.iter, ifs=conds, is_async=0)
             ast.copy_location(gen, st)
-            if isinstance(elt, tuple):
+            if isinstance(elt, tuple) and elt[0] == "extend" and isinstance(
+                    elt[1], (ast.GeneratorExp, ast.ListComp)):
+                # extend(<comprehension>): its generators simply follow the loop's
+                self.env.vars[name] = self._comp("list", [elt[1].elt], [gen, *elt[1].generators])
+            elif isinstance(elt, tuple) and elt[0] == "extend":
+                inner = ast.comprehension(target=ast.Name(id="_lsa_k", ctx=ast.Store()),
+                                          iter=elt[1], ifs=[], is_async=0)
+                ast.copy_location(inner, st)
+                ast.fix_missing_locations(inner)
+                k_ = ast.Name(id="_lsa_k", ctx=ast.Load())
+                ast.copy_location(k_, st)
+                self.env.vars[name] = self._comp("list", [k_], [gen, inner])
+            elif isinstance(elt, tuple):
                 self.env.vars[name] = self._comp("dict", list(elt), [gen])
             else:
                 self.env.vars[name] = self._comp("list", [elt], [gen])
+            return None
+        # a loop over a short literal display is the statements written out
+        if isinstance(st.iter, (ast.Tuple, ast.List)) and 1 <= len(st.iter.elts) <= 4 \
+                and not st.orelse and not any(isinstance(x, ast.Starred) for x in st.iter.elts) \
+                and not any(isinstance(x, (ast.Break, ast.Continue, ast.Return))
+                            for b in st.body for x in ast.walk(b)):
+            for elt in st.iter.elts:
+                self.assign(st.target, self.expr(elt), st)
+                if self.block(st.body) is False:
+                    return False
             return None
         self._loop(st, self.expr(st.iter), None)
 
@@ -1327,8 +1362,8 @@ def make_inliner(repo: Repo, targets: dict[str, FunctionInfo] | None = None,
         for lp in r.loops:
             ev.res.loops.append(lp)
         # a guard that rejects inside the callee rejects the caller's call as well
-        for rz in r.raises:
-            ev.res.raises.append(rz)
+        for i_, rz in enumerate(r.raises):
+            ev.res.raises.append(rz, tick=r.raises.ticks[i_])
         ev.res.inlined = getattr(ev.res, "inlined", [])
         ev.res.inlined.append((callee, r, t))
         ev.res.inlined.extend(getattr(r, "inlined", []))
